@@ -404,6 +404,83 @@ pub fn run(ctx: &Ctx, rep: &mut Report) {
             }
         }
     }
+    // (e) std build only: single lines whose body is around 2^28 and 2^29 bytes (2^30, 2^31 and
+    // 2^32 in the thorough tier), where a bit count of the body or a 31/32-bit index wraps. The
+    // bulk sits in the channel field and is pseudo-random, so that leaving any stretch of it out
+    // of the XOR changes the value. Transmitted: the XOR of the whole body (must be accepted), one
+    // bit off, and the XOR of the body without its first 2^28 / 2^29 / ... bytes (must be
+    // Checksum errors naming both values).
+    if mon::CFG == "std" {
+        let mut item = 500u64;
+        let mut sizes: Vec<usize> = Vec::new();
+        for base in [1usize << 28, 1 << 29] {
+            for d in [-1i64, 0, 1, 7, 8, 9, 64] {
+                sizes.push((base as i64 + d) as usize);
+            }
+        }
+        if ctx.thorough() {
+            sizes.extend_from_slice(&[(1 << 30) + 3, (1 << 31) - 1, (1 << 31) + 5, (1usize << 32) + 11]);
+        }
+        for &bulk in &sizes {
+            if !ctx.mine(item) {
+                item += 1;
+                continue;
+            }
+            item += 1;
+            const HEAD: &[u8] = b"AIVDM,1,1,,";
+            const TAIL: &[u8] = b",15RTgt0PAso;90TKcjM8h6g208CQ,0";
+            let mut line: Vec<u8> = Vec::with_capacity(bulk + 64);
+            line.push(b'!');
+            line.extend_from_slice(HEAD);
+            let mut x = 0x9E37_79B9_7F4A_7C15u64 ^ (bulk as u64) ^ r.below(1 << 30);
+            line.extend((0..bulk).map(|_| {
+                x = x.wrapping_mul(6364136223846793005).wrapping_add(1442695040888963407);
+                crate::armor::ALPHABET[(x >> 58) as usize]
+            }));
+            line.extend_from_slice(TAIL);
+            let body_end = line.len();
+            let whole = nmea_ref::xor(&line[1..body_end]);
+            let mut txs: Vec<(u8, &str)> = vec![(whole, "whole"), (whole ^ 0x10, "one-bit-off")];
+            let mut skip = 1usize << 28;
+            while skip <= bulk {
+                txs.push((nmea_ref::xor(&line[1..HEAD.len() + 1]) ^ nmea_ref::xor(&line[HEAD.len() + 1 + skip..body_end]), "stretch-left-out"));
+                // what a word-wise fold with a wrapped bit count computes: the first
+                // (len mod skip) / 8 words and the last len % 8 bytes
+                let blen = body_end - 1;
+                let words = (blen % skip) / 8 * 8;
+                txs.push((nmea_ref::xor(&line[1..1 + words]) ^ nmea_ref::xor(&line[body_end - blen % 8..body_end]), "wrapped-word-count"));
+                skip *= 2;
+            }
+            for (tx, what) in txs {
+                line.truncate(body_end);
+                line.extend_from_slice(format!("*{:02X}", tx).as_bytes());
+                let desc = format!("line with a channel field of {} pseudo-random armoring characters, body XOR 0x{:02X}, transmitted 0x{:02X} ({})", bulk, whole, tx, what);
+                rep.eval();
+                rep.class(format!("giant-line|2^{}|{}", (usize::BITS - 1 - bulk.leading_zeros()).max(28), if tx == whole { "match" } else { "mismatch" }));
+                rep.count("giant-lines");
+                let mut p = Parser::new();
+                mon::allow(line.len());
+                match p.parse(&line, false) {
+                    Call::Panic(pi) => rep.violation(PID, format!("panic@{}", pi.loc), format!("{}: panic '{}'", desc, pi.msg), || J::s(&desc)),
+                    Call::Done(out) => {
+                        if tx == whole {
+                            rep.count("match");
+                            if !out.is_ok() {
+                                rep.violation(PID, "good-checksum-rejected".into(), format!("{}: observed {}", desc, out.canon().chars().take(120).collect::<String>()), || J::s(&desc));
+                            }
+                        } else {
+                            rep.count("mismatch");
+                            let want = Outcome::Err(ErrKind::Checksum { expected: tx, found: whole });
+                            if out != want {
+                                let sig = if out.is_ok() { "bad-checksum-accepted" } else { "wrong-checksum-error" };
+                                rep.violation(PID, sig.into(), format!("{}: expected Checksum{{expected: {}, found: {}}}, observed {}", desc, tx, whole, out.canon().chars().take(120).collect::<String>()), || J::s(&desc));
+                            }
+                        }
+                    }
+                }
+            }
+        }
+    }
     rep.require("match");
     rep.require("mismatch");
     rep.require("reject");
